@@ -150,7 +150,7 @@ def _sized(ty, n):
 def _pyval(e):
     v = e['v']
     ty, n = v['ty'], v['n']
-    if ty in ('list', 'bytes') or (ty == 'str' and e['par'] in LENGTH and e['prop'] == 'value'):
+    if ty in ('list', 'bytes') or (ty == 'str' and e['par'] in LENGTH and e['prop'] in ('value', 'default', 'constant')):
         return _sized(ty, n)
     if ty == 'int':
         return n // 2 if n % 2 == 0 else n / 2
@@ -202,7 +202,8 @@ def _mod_source(name, entries, kind='polled'):
             args.append(f'{par}={val!r}')
         else:
             args.append('%s=Param(%s)' % (par, ', '.join(f'{k}={v!r}' for k, v in val.items())))
-    return "Mod(%r, '%s.%s', 'module %s'%s)\n" % (name, MODNAME, KINDCLS[kind], name, ''.join(', ' + a for a in args))
+    cls = 'Missing_' + name if kind == 'noclass' else KINDCLS[kind]
+    return "Mod(%r, '%s.%s', 'module %s'%s)\n" % (name, MODNAME, cls, name, ''.join(', ' + a for a in args))
 
 
 def _mod_cfgdict(entries):
@@ -398,7 +399,7 @@ def _observe_run(srv, files, trace):
         else:
             trace.append({'ev': 'create', 'm': m, 'out': 'rejected', 'st': {}, 'orig': False})
     if outcome == 'refused':
-        named = sorted({m for line in errors for m in re.findall(r'\bm\d+\b', line)})
+        named = sorted({m for line in errors for m in re.findall(r'(?<![A-Za-z0-9])m\d+\b', line)})
         trace.append({'ev': 'refuse', 'reported': named, 'registered': registered, 'started': sorted(started),
                       'hw_before_exit': {m: [list(map(str, e)) for e in hw[m] if e[0] == 'write'] for m in started},
                       'errors': errors[:12]})
@@ -601,6 +602,19 @@ def _entry_kinds(beh):
                   {'missing:' + m for m in beh['missing']})
 
 
+ORDER_FEATURE = 'default/constant with a length override in one Param'
+
+
+def _feature(cfg):
+    """signature piece: the configuration gives a default / constant of a string, array or blob parameter together
+    with a min/max length override (the judgement then depends on the keyword order inside Param(...))"""
+    for p in LENGTH:
+        props = {e['prop'] for e in cfg if e['par'] == p}
+        if props & {'default', 'constant'} and props & {'min', 'max'}:
+            return {'feature': ORDER_FEATURE}
+    return {}
+
+
 def _judge(chk, traces, tag, sources):
     verdicts, st, tr = validate_traces('Trace_Config', traces, 'Trace_Config.cfg', timeout=900, chunk=2000)
     chk.states += st
@@ -614,6 +628,8 @@ def _judge(chk, traces, tag, sources):
             sig = {'module': 'Config', 'deviation': clause[4:]}
         else:
             sig = {'module': 'Config', 'event': ev.get('ev'), 'clause': clause}
+            if ev.get('ev') == 'module':
+                sig.update(_feature(ev['cfg']))
         chk.violation(sig, {'source': tag, 'case': sources[i], 'failed_at': l, 'event': ev, 'clause': clause})
 
 
@@ -641,7 +657,7 @@ def run(chk):
         bad = _cmp_module(b, got)
         if bad:
             clause, detail = bad
-            sig = {'module': 'Config', 'event': 'module', 'clause': clause, 'kinds': _entry_kinds(b)}
+            sig = {'module': 'Config', 'event': 'module', 'clause': clause, 'kinds': _entry_kinds(b), **_feature(b['cfg'])}
             chk.violation(sig, {'source': 'Gen_Config', 'cfg': b['cfg'], 'allowed': b['allowed'], **detail})
     if behs:
         k = len(behs) // 2
